@@ -328,3 +328,17 @@ def run(ctx: Context) -> None:  # noqa: F811
 
     ctx.rep.rule('C10.R10', 'the default async backend is a pure delegation: host, port, local address, socket options and timeout reach the running library backend unchanged')
     backend.auto_delegation(ctx, 'C10.R10')
+
+
+
+_core_run_r11 = run
+
+
+def run(ctx: Context) -> None:  # noqa: F811
+    _core_run_r11(ctx)
+    from .c03 import _request_immutable
+
+    ctx.rep.rule("C10.R11", "the TLS server name of a later handshake cannot be changed by an earlier request: nothing modifies a Request or the extensions mapping it "
+                            "shares with the caller (the `sni_hostname` override lives there)")
+    _request_immutable(ctx, "C10.R11", "the mapping is the caller's own - a later handshake that reads `sni_hostname` (or the timeouts) from it sees the modified value, "
+                                       "so the connection is authenticated against a different name than the one the caller asked for")
